@@ -142,6 +142,99 @@ fn run_c11(tier: Tier) -> i32 {
     runner::finish("faults", &out, &ev)
 }
 
+fn run_c15(tier: Tier) -> i32 {
+    use sdmmc_verif::engines::mount;
+    let seed = env_seed();
+    let known = runner::load_known();
+    let t0 = std::time::Instant::now();
+    let test = |c: &mount::MountCase, a: &mut Acc| -> Result<(), Failure> {
+        match mount::run_case(c, a, false) {
+            Err(f) if is_open_known(&known, "C15", &f.sig) => {
+                a.known(&f.sig);
+                Ok(())
+            }
+            r => r,
+        }
+    };
+    let mut acc = Acc::default();
+    let mut violation = runner::replay_corpus::<mount::MountCase>("C15", &mut acc, &|c, a| test(c, a));
+    if violation.is_none() {
+        violation = mount::enumerate_fields(&mut acc);
+    }
+    let mut out = Outcome { acc, violation, wall_s: 0.0 };
+    if out.violation.is_none() {
+        let o = runner::run_parallel("C15", seed, env_cases(tier.pick(20_000, 800_000)), mount::case_strategy, test);
+        out.acc.merge(o.acc);
+        out.violation = o.violation;
+    }
+    out.wall_s = t0.elapsed().as_secs_f64();
+    let ev = EvidenceIn {
+        prop: "C15",
+        tier,
+        seed,
+        level: "exploration",
+        rule: "valid half: proptest layouts over all BPB parameters (1-128 blocks per cluster, 1-2 FATs, reserved counts, root entry counts, 16/32-bit totals, partition slots 0-3, five partition types, cluster counts at 4085/4086/65524/65525/65526) built by the independent formatter; every placed file must read back through the crate and a file written through the crate must be found by the independent reader. invalid half: every mount-relevant field x 7 boundary values and all pairs of BPB layout fields (enumerated), random byte mutations, and random sectors with/without valid signatures; open_raw_volume(0..=4) must return Ok or Err without panic. distinct = hash of the geometry tuple / edit list / mutated bytes",
+        exhaustive: None,
+        assumptions: vec!["overflow and debug assertions are enabled in the build, so wrapping arithmetic on untrusted fields shows as a panic".into(), "device reads beyond the end of the device return Err, which is a legal outcome".into()],
+        extra: json!({}),
+    };
+    runner::finish("mount", &out, &ev)
+}
+
+fn run_sd(prop: &'static str, tier: Tier) -> i32 {
+    use sdmmc_verif::sd::engine as sde;
+    let seed = env_seed();
+    let known = runner::load_known();
+    let faults = prop == "C13";
+    let test = |c: &sde::SdCase, a: &mut Acc| -> Result<(), Failure> {
+        let r = if faults { sde::run_c13(c, a) } else { sde::run_c12_c14(c, prop, a) };
+        match r {
+            Err(f) if is_open_known(&known, prop, &f.sig) => {
+                a.known(&f.sig);
+                Ok(())
+            }
+            r => r,
+        }
+    };
+    let t0 = std::time::Instant::now();
+    let mut acc = Acc::default();
+    let mut violation = runner::replay_corpus::<sde::SdCase>(prop, &mut acc, &|c, a| test(c, a));
+    if violation.is_none() && faults {
+        violation = sdmmc_verif::sd::engine::enumerate_bit_flips(&mut acc, &test);
+    }
+    let mut out = Outcome { acc, violation, wall_s: 0.0 };
+    if out.violation.is_none() {
+        let near = tier == Tier::Thorough;
+        let cases = env_cases(match prop {
+            "C13" => tier.pick(30_000, 1_000_000),
+            _ => tier.pick(12_000, 500_000),
+        });
+        let o = runner::run_parallel(prop, seed, cases, move || sde::case_strategy(faults, near), test);
+        out.acc.merge(o.acc);
+        out.violation = o.violation;
+    }
+    out.wall_s = t0.elapsed().as_secs_f64();
+    let (level, rule): (&str, &str) = match prop {
+        "C12" => ("exploration", "card kind (v1 SC, v2 SC, HC) x CRC on/off x capacity (boundary C_SIZE / multiplier / READ_BL_LEN values) x timings (Ncr 0-8, data-token delay, busy periods, idle polls, ignored CMD0s) x 1-40 BlockDevice calls (read/write of 1, 2-8, 64 blocks at block numbers 0, 1, last, last-n, 2^k, 2^k-1, >= 2^23, random; read-back; num_blocks/num_bytes/get_card_type; mark_card_uninit) against a simulated card written from the SD specification. Oracle: model of the card memory compared everywhere after every call, and the same sequence with every n-block transfer done as n single transfers. non-trivial = contains a multi-block transfer and a read-back of a written block; distinct by (kind, crc, call-kind sequence, Ncr)"),
+        "C14" => ("exploration", "the same generated runs as C12; every MOSI byte is checked by the card's protocol monitor (frame bits, CRC-7, busy, CMD55 prefix, identification order, data tokens, 512+2 framing with CRC-16 when on, CMD12 / stop token). non-trivial = run contains a multi-block write and a re-initialisation; distinct by (kind, crc, command sequence on the bus)"),
+        _ => ("fault_enumeration", "C12-style sequences with one injected fault: every single-bit flip position of a data block + CRC (4112 positions, enumerated for each card kind), bursts <= 16 bits, wrong data tokens, rejected data blocks, failed write status, card dead / busy / garbage from byte p, SPI bus error at transaction n. Ok only with correct data (CRC on), Err where the property requires it, SPI byte budget per call (2e9) as termination bound, recovery after power-cycle (+ mark_card_uninit unless the failure was in the identification sequence). non-trivial = the fault fired; distinct by (kind, crc, fault, call-kind sequence)"),
+    };
+    let ev = EvidenceIn {
+        prop,
+        tier,
+        seed,
+        level,
+        rule,
+        exhaustive: None,
+        assumptions: vec![
+            "the card is modelled as a byte-stream peer that ignores chip-select framing (the driver issues one SPI transaction per helper call)".into(),
+            "simulated card written from the SD Physical Layer Simplified Specification, independent of src/sdcard/proto.rs".into(),
+        ],
+        extra: json!({}),
+    };
+    runner::finish("sdsim", &out, &ev)
+}
+
 fn run_c06(tier: Tier) -> i32 {
     let seed = env_seed();
     let mut out = dir_pass("C06", seed, env_cases(tier.pick(12_000, 500_000)), true, false);
@@ -254,6 +347,18 @@ fn replay(path: &str) -> i32 {
             let case: Case = serde_json::from_value(rf.case).expect("case does not parse");
             sdmmc_verif::engines::faults::run_case(&case, &mut acc, &known, true, true)
         }
+        "mount" => {
+            let case: sdmmc_verif::engines::mount::MountCase = serde_json::from_value(rf.case).expect("case does not parse");
+            sdmmc_verif::engines::mount::run_case(&case, &mut acc, true)
+        }
+        "sdsim" => {
+            let case: sdmmc_verif::sd::engine::SdCase = serde_json::from_value(rf.case).expect("case does not parse");
+            if prop == "C13" {
+                sdmmc_verif::sd::engine::run_c13(&case, &mut acc)
+            } else {
+                sdmmc_verif::sd::engine::run_c12_c14(&case, prop, &mut acc)
+            }
+        }
         "dirgen" => {
             let case: dirgen::DirCase = serde_json::from_value(rf.case).expect("case does not parse");
             dirgen::run_case(&case, &mut acc, prop == "C06", prop == "C17", true)
@@ -312,6 +417,10 @@ fn main() {
                 "C09" => run_crash("C09", tier),
                 "C10" => run_crash("C10", tier),
                 "C11" => run_c11(tier),
+                "C12" => run_sd("C12", tier),
+                "C13" => run_sd("C13", tier),
+                "C14" => run_sd("C14", tier),
+                "C15" => run_c15(tier),
                 "C16" => run_fsx("C16", tier, "exploration"),
                 "C17" => run_c17(tier),
                 "C18" => pure::run_c18(tier, env_seed()),
